@@ -530,7 +530,8 @@ var yMulti = []string{"line1\nline2", "line1\nline2\n", "a\n\nb\n", "one two\nth
 	// lines that look like YAML syntax of their own: an alias used as a key, an anchor, a merge, a document marker, a tag
 	"*new: added in this release\nsecond\n", "intro\n*a: b\n&x y: z\n", "<<: *base\nk: v\n", "text\n--- not a marker\n", "!!str: t\n? q\n: r\n"}
 
-var yFoldable = []string{"*new: added\n", "*a: b c\n*d : e\n", "one two three", "one two three\n", "alpha beta\ngamma delta\n", "w1 w2 w3 w4 w5 w6", "p1 q1\np2 q2", "word\n", "x y"}
+var yFoldable = []string{"*new: added\n", "*a: b c\n*d : e\n", "one two three", "one two three\n", "alpha beta\ngamma delta\n", "w1 w2 w3 w4 w5 w6", "p1 q1\np2 q2", "word\n", "x y",
+	"para one\n\npara two\n", "a b\n\n\nc d", "p1 q1\n\np2 q2", "one\n\ntwo three\nfour\n"}
 
 func (g *ygen) plainStr(s string) *YN {
 	return &YN{Kind: YScalar, Tag: "!!str", Value: s, Style: "plain"}
@@ -738,6 +739,9 @@ func (g *ygen) foldedNode(s string) *YN {
 	for pi, para := range strings.Split(body, "\n") {
 		if pi > 0 {
 			n.Lines = append(n.Lines, "")
+		}
+		if para == "" {
+			continue // one more line break between two paragraphs: one more empty line
 		}
 		words := strings.Split(para, " ")
 		cur := words[0]
